@@ -119,6 +119,12 @@ def run(tier: str) -> int:
     ck.tlc(res, f'MC_ExaUpdateHist: all histories of <= {maxlen} steps; invariant HistoryFree (cache keyed on bytes AND session)')
     if not res.ok:
         raise tlc.TLCError('MC_ExaUpdateHist: ' + res.out[-1500:])
+    # vacuity guard: the cache keyed on the raw bytes only (what the tree had before fix 3caae64) must violate HistoryFree
+    broken = tlc.run('MC_ExaUpdateHist', os.path.join(tlc.SPEC, 'MC_ExaUpdateHist_asis.cfg'), 'c19asis', workers=8)
+    ck.tlc(broken, 'MC_ExaUpdateHist with KeyIncludesSession = FALSE (must be rejected)')
+    if broken.violated_invariant != 'HistoryFree':
+        raise tlc.TLCError('ExaUpdateHist keyed on bytes only should violate HistoryFree (vacuity guard): ' + broken.out[-800:])
+    ck.notes.append('vacuity guard: ExaUpdateHist with the bytes-only cache key violates HistoryFree, as it must')
     hists = [[tuple(x) for x in st['hist']] for st in states if st['hist']]
     rnd = random.Random(seed())
     limit = 3500 if tier == 'quick' else 45000
